@@ -494,6 +494,7 @@ theorem pipeline_of_command {c : Cfg} {q : Q} {neg binCmd : Bool} {f : Nat} {pr 
   have h2 : redirs rest = some (false, rest) := by
     simpa using redirs_complete .nil rest hr
   simp only [pipeline, List.append_assoc, h1, hc, R.bind, h2]
+  simp
 
 theorem name_call {c : Cfg} {q : Q} {pre : Bool} {f : Nat} {t : Tok} {X : List Tok}
     (h : X.head? ≠ some lparen) : name c q pre (f+1) t X = ofOpt (callExpr q X) := by
@@ -572,9 +573,20 @@ theorem comp_c_redir {c : Cfg} {q neg w r} (hw : wordLike w = true) (hr : Redirs
     (by simpa using allows_ne_io hal)
   simpa using this
 
+theorem followsOpen_of_openOK {q : Q} {n : Option Tok} (h : openOK q n = true) :
+    followsOpen n = true := by
+  cases n with
+  | none => rfl
+  | some t =>
+    simp only [openOK, Bool.or_eq_true, Bool.and_eq_true, beq_iff_eq] at h
+    rcases h with h | ⟨rfl, _⟩
+    · simp [followsOpen, h]
+    · rfl
+
 theorem comp_c_compound {c : Cfg} {q neg body post} (hdb : Derives c (.compound q) .closed body)
     (ihb : Comp c (.compound q) .closed body) (hpost : Redirs post) :
-    Comp c (.command q neg) .closed (body ++ post) := by
+    Comp c (.command q neg) (if post.isEmpty || c.closerAfterRedir then .closed else .open)
+      (body ++ post) := by
   intro f rest binCmd hal hfu
   simp only [List.length_append] at hfu
   obtain ⟨f', rfl⟩ : ∃ f', f = f' + 1 := ⟨f - 1, by omega⟩
@@ -585,7 +597,15 @@ theorem comp_c_compound {c : Cfg} {q neg body post} (hdb : Derives c (.compound 
   have h2 := ihb f' (post ++ rest) neg (by omega)
   have h3 : redirs (post ++ rest) = some (!post.isEmpty, rest) :=
     redirs_complete hpost rest (allows_ne_io hal)
-  simp only [pipeline, List.append_assoc, h1, h2, R.bind, h3, Nat.add_sub_cancel]
+  have hchk : (!post.isEmpty && !c.closerAfterRedir && !followsOpen rest.head?) = false := by
+    by_cases hc : (post.isEmpty || c.closerAfterRedir) = true
+    · simp only [Bool.or_eq_true] at hc
+      rcases hc with hc | hc <;> simp [hc]
+    · simp only [hc] at hal
+      have := followsOpen_of_openOK (q := q) (by simpa [allows] using hal)
+      simp [this]
+  simp only [pipeline, List.append_assoc, h1, h2, R.bind, h3, Nat.add_sub_cancel, hchk]
+  simp
 
 theorem seal_inv {q : Q} {e : End} {n : Option Tok} (h : allows q e.seal n = true) :
     allows q e n = true ∧ notCont n = true := by
